@@ -138,6 +138,9 @@ def oracle(case, obs, ctx, idx):
              "fault_before_other_events": False, "executed": 0}
     if "error" in obs:
         return ("driver-error", obs["error"]), facts
+    bad_clock = S.log_insane(obs)
+    if bad_clock:
+        return ("clock-not-an-exact-number", bad_clock), facts
     why = S.representable(obs)
     base = ctx[idx]
     if "error" in base:
